@@ -1,5 +1,5 @@
 """C09 -- text to number (thin: tables, boundary constants, protocols)."""
-from qlib import astq, tab, dataflow
+from qlib import astq, tab, dataflow, zonecheck
 from qlib.model import AnalysisBroken
 from qlib.partition import Partitioned
 from qlib.report import Rule
@@ -24,6 +24,7 @@ META["explanation"] += " " + '(TB-casepair, shared with C06) both spellings of t
 META["explanation"] += " " + '(PR-expmarker, PR-accumulate: shared with C06) an exponent marker under the cursor is consumed by the exponent scanner; recognised digits are accumulated.'
 META["explanation"] += " " + '(ACC-wrap) a decimal accumulation in a loop bounded only by the end of the input is under a bound on the accumulator itself (the mantissa loops are bounded by a local 19-digit window); one named exception, the unchecked FastStringToNumber.'
 META["explanation"] += " " + '(SB-window) the two sibling computations of the 19-digit window clamp from the cursor the window starts at.'
+META["explanation"] += " " + '(SB-span) every position difference assigned to e_extra_p10_power has a left operand E-ZONE proves <= the cursor offset where it is evaluated (a digit count never counts units ahead of the cursor); catches seeded C09-w4-3.'
 META["explanation"] += " " + '(FIELD-fit) in powerOfPositiveTen the biased exponent is found to be at most 2046 on every path before it is shifted into the 11-bit exponent field (must-analysis over the comparisons of that local with 2046/2047).'
 META["explanation"] += " " + '(UNS-shift) in powerOfPositiveTen an unsigned difference used as a shift amount is proven by E-ZONE not to wrap below zero (the unguarded bit - 53 of powerOfNegativeTen is listed as not decided).'
 
@@ -239,6 +240,7 @@ def run(ctx):
     from rules.common import rule_accumulator_wrap
     rules.append(rule_accumulator_wrap(ctx, m))
     rules.append(rule_window(ctx, m))
+    rules.append(rule_span(ctx, m))
     rules.append(rule_field_fit(ctx, m))
     rules.append(rule_unsigned_shift(ctx, m))
     rules.append(rule_range_nonzero(ctx, m))
@@ -246,6 +248,58 @@ def run(ctx):
     rules.append(rule_scanner_result(ctx, m, ["Digit.hpp"]))
     return rules
 
+
+def rule_span(ctx, m):
+    """SB-span: the scanner turns positions into a digit count: the decimal exponent of the digits that fell outside the
+    19-digit window is a difference of two positions of the numeral (`offset - start_offset`, `exp_offset - start_offset`,
+    `dot_offset - start_offset`).  Such a difference counts scanned digits only when its left operand is a position the cursor
+    has already reached: E-ZONE must prove  left <= offset  where the difference is evaluated.  A position that may lie ahead
+    of the cursor (the caller's end of buffer, which is where the numeral could end, not where it does end) counts units that
+    were never part of the numeral: 123456789012345678901234 followed by `, 5]` was scaled by four more powers of ten."""
+    from qlib import dataflow
+    from qlib.zone import ContractTable
+    r = Rule("SB-span", "a digit count assigned to e_extra_p10_power is a difference whose left operand is a position <= the cursor", floor=2)
+    fs = [f for f in m.fns("Qentem::Digit::stringToNumber", required=False) if not f.inst and f.cfg]
+    if not fs:
+        r.broke("Digit::stringToNumber not found")
+        return r
+    f = fs[0]
+    ctx.note_fn(f)
+    # the subtractions that feed the count
+    want = {}
+    for i in astq.nodes_of(f, "BinaryOperator"):
+        n = f.nodes[i]
+        if n["op"] != "=" or f.text(n["ch"][0]) != "e_extra_p10_power":
+            continue
+        for x in f.walk(n["ch"][1]):
+            xn = f.nodes[x]
+            if xn["k"] == "BinaryOperator" and xn["op"] == "-":
+                want[x] = i
+    if not want:
+        r.broke("stringToNumber: no assignment of a position difference to e_extra_p10_power was found")
+        return r
+    _, _, (z, states) = zonecheck.analyse(m, f, ContractTable(CONTRACTS))
+    cur = z.name_terms()("offset")
+    done = set()
+
+    def visit(b, i, e, st):
+        if e is None or e.get("n") not in want or e["n"] in done or st.bottom:
+            return
+        x = e["n"]
+        done.add(x)
+        left = f.nodes[x]["ch"][0]
+        ll = z.lin(st, left)
+        ok = False
+        if ll is not None and cur is not None:
+            from qlib.zone import Lin
+            ok = st.lin_le0(ll - Lin({cur: 1}))
+        r.ob(f.q, f.text(x)[:60], ok, "`%s` <= offset holds where the difference is evaluated" % f.text(left) if ok else
+             "`%s` is not known to be <= the cursor `offset` here: the difference may count units the scanner never reached" % f.text(left), f.loc(x))
+    dataflow.replay(f, z, states, visit)
+    for x in want:
+        if x not in done:
+            r.ob(f.q, f.text(x)[:60], False, "the difference is not an element of any reachable block (not decided)", f.loc(x))
+    return r
 
 
 def rule_window(ctx, m):
